@@ -802,7 +802,7 @@ def remap_by_types(
             elif isinstance(t_node.func, ast.Subscript):
                 if isinstance(t_node.func.value, ast.Attribute):
                     found_type = self.lookup_type(t_node.func.value.value)
-                    if found_type is not None:
+                    if found_type != Any:
                         t_node = self.process_parameterized_method_call(
                             t_node,
                             found_type,
